@@ -81,15 +81,17 @@ type stubCtrl struct {
 	rec                  *reg.TaskRecorder
 }
 
-func (s stubCtrl) StartValidator(share *ssvtypes.SSVShare) error  { return s.rec.StartValidator(share) }
-func (s stubCtrl) StopValidator(pk spectypes.ValidatorPK) error     { return s.rec.StopValidator(pk) }
+func (s stubCtrl) StartValidator(share *ssvtypes.SSVShare) error { return s.rec.StartValidator(share) }
+func (s stubCtrl) StopValidator(pk spectypes.ValidatorPK) error  { return s.rec.StopValidator(pk) }
 func (s stubCtrl) LiquidateCluster(o ethcommon.Address, ids []uint64, l []*ssvtypes.SSVShare) error {
 	return s.rec.LiquidateCluster(o, ids, l)
 }
 func (s stubCtrl) ReactivateCluster(o ethcommon.Address, ids []uint64, l []*ssvtypes.SSVShare) error {
 	return s.rec.ReactivateCluster(o, ids, l)
 }
-func (s stubCtrl) UpdateFeeRecipient(o, r ethcommon.Address) error { return s.rec.UpdateFeeRecipient(o, r) }
+func (s stubCtrl) UpdateFeeRecipient(o, r ethcommon.Address) error {
+	return s.rec.UpdateFeeRecipient(o, r)
+}
 func (s stubCtrl) ExitValidator(pk phase0.BLSPubKey, b uint64, i phase0.ValidatorIndex) error {
 	return s.rec.ExitValidator(pk, b, i)
 }
@@ -171,7 +173,6 @@ func (w *world) realLife(ctl *reg.Ctl) (res lifeResult) {
 	}
 	defer srv.Stop()
 	client := ethclient.NewClient(rpc.DialInProc(srv))
-	defer client.Close()
 
 	hook := &fatalHook{}
 	logger := zap.NewNop().WithOptions(zap.WithFatalHook(hook))
@@ -213,7 +214,8 @@ func (w *world) realLife(ctl *reg.Ctl) (res lifeResult) {
 	case <-time.After(60 * time.Second): // hang detector, 4 orders of magnitude above a life's normal cost
 		out = outcome{lifeResult{end: panicked, err: "setupEventHandling did not return within 60 s"}}
 	}
-	cancel() // stops the ongoing sync goroutine (its logger.Fatal only ends that goroutine)
+	cancel()       // stops the ongoing sync goroutine (its logger.Fatal only ends that goroutine)
+	_ = ec.Close() // and makes every retry loop of the execution client exit
 	res = out.res
 	res.resumeAsked = append([]uint64{}, fake.asked...)
 	return res
